@@ -20,9 +20,13 @@ RULE = ('histories of 3-10 operations (copy, copy_like, copy_thermal_condition, 
         'and compared with the in-process reduce.  non-trivial = at least one operation succeeded and (a mutation changed an '
         'observable or two streams share a cell); distinct = distinct case hash')
 ASSUMPTIONS = ['float rounding is not modelled: values compared to 1e-9 relative; inputs are dyadic so copies are exact',
-               'links are only generated between streams of the same property package (link_with does not check it)',
+               'links are only generated between streams of the same property package and, for MultiStreams, the same phase tuple '
+               '(link_with checks neither); a MultiStream whose shared SparseArray was re-shaped by _expand_phases through its partner '
+               '(rows no longer aligned with its phases) is not operated on any further',
                'Stream.phases = <set lacking the current phase of a non-empty stream> leaves __class__ and _imol mismatched; '
                'such assignments are skipped by the harness (recorded as skip) and are outside the model',
+               'MultiStream.proxy() leaves the MultiStream-only slots (_streams, equilibrium caches) unset, so assigning phase/phases '
+               'to such a proxy raises AttributeError after rebinding _imol; those assignments are skipped as well',
                'characterization_factors, price, ID are plain values in the model (the dict shared by proxy() is not a heap cell)',
                'sub-streams ms[phase] (LockedPhase), _data_cache / _property_cache and copy(thermo=...) / copy_flow are not modelled']
 TRUSTED = ['model coq/C13/Model.v is hand-written from thermosteam/_stream.py, _multi_stream.py, indexer.py, _phase.py, '
@@ -215,17 +219,26 @@ def would_break_class(s, phases):
     """Stream.phases = phases raises after switching __class__ (see ASSUMPTIONS)"""
     if is_multi(s) or len(set(phases)) == 1: return False
     p = s.phase
-    return bool(s._imol.data.dct) and not (p in phases or swapcase(p) in phases)
+    return not (p in phases or swapcase(p) in phases)
+
+def inconsistent(s):
+    """a MultiStream whose SparseArray was re-shaped through another indexer sharing it (rows and phases no longer align)"""
+    return is_multi(s) and len(s._imol.data.rows) != len(s._imol._phases)
 
 def resolve(store, op):
     name = op[0]; n = len(store); i = op[1] % n
+    if inconsistent(store[i]) or (name in ('copy_like', 'copy_tc', 'copy_phase', 'link') and inconsistent(store[op[2] % n])):
+        return ['skip']
+    if name in ('set_phase', 'set_phases') and is_multi(store[i]) and not hasattr(store[i], '_streams'):
+        return ['skip']   # a proxy of a MultiStream has no _streams: its phase setter raises half-way
     if name in ('copy', 'flow_proxy', 'proxy', 'unlink', 'empty', 'reduce'):
         return [name, i]
     if name in ('copy_like', 'copy_tc', 'copy_phase'):
         return [name, i, op[2] % n]
     if name == 'link':
         j = op[2] % n
-        if pkg_of(store[i]) != pkg_of(store[j]):
+        a, b = store[i], store[j]
+        if pkg_of(a) != pkg_of(b) or (is_multi(a) and is_multi(b) and a._imol._phases != b._imol._phases):
             return ['skip']
         return [name, i, j] + [bool(b) for b in op[3:6]]
     if name == 'set_flow':
@@ -336,7 +349,7 @@ def run_impl(case):
     # real pickling of every final stream, compared with the in-process reduce (which the model predicts)
     ok = True; notes = []
     for k, s in enumerate(store):
-        if not out['final'][k]['cls_ok']:
+        if not out['final'][k]['cls_ok'] or inconsistent(s):
             continue
         try:
             f, args = s.__reduce__()
@@ -581,7 +594,7 @@ def oracle(case):
         if r is not None: store.append(r)
     for k, s in enumerate(store):
         v = values(s)
-        if not v['cls_ok']: continue
+        if not v['cls_ok'] or inconsistent(s): continue
         try:
             w = pickle_values(s)
         except Exception as ex:
